@@ -25,7 +25,9 @@ RULE = ("Hypothesis: real-basis expressions = 1-3 terms of rational "
         "sums or a single term with free indices); requests: "
         "expand_intermediates(fully|once), reduce_expr, "
         "factor_intermediates(generated subset and order of types/names, "
-        "max_order) applied to the expanded or reduced form. Oracle: value on "
+        "max_order) applied to the expanded or reduced form, or to the "
+        "expanded form of a long intermediate (t2_2, t1_2, p0_2) in which one "
+        "generated term got a deviating prefactor (factor_perturbed). Oracle: value on "
         "a canonical-HF F_p model in which every intermediate tensor takes "
         "the value of its registered definition (amplitudes/densities from "
         "RSPT, composite intermediates by evaluating their definitions "
@@ -62,15 +64,18 @@ SP = {"o": "occ", "v": "virt"}
 
 
 @st.composite
-def st_term(draw, n_target, tier="thorough"):
+def st_term(draw, n_target, tier="thorough", fixed_objs=None):
     objs = []
     n_itmd = draw(st.integers(1, 2))
     templ = TEMPLATES if tier == "thorough" else \
         [t for t in TEMPLATES if not (t[0] == "t2" and len(t[2]) == 3)
          and t[0] not in ("t2eriA", "t2eriB")]
+    if fixed_objs is not None:
+        objs = list(fixed_objs)
+        n_itmd = 0
     for _ in range(n_itmd):
         objs.append(draw(st.sampled_from(templ)))
-    for _ in range(draw(st.integers(0, 2))):
+    for _ in range(draw(st.integers(0, 2)) if fixed_objs is None else 0):
         objs.append(draw(st.sampled_from(PLAIN)))
     descs = []
     slots = []
@@ -159,10 +164,81 @@ def st_num_case(draw):
             "mseed": draw(st.integers(0, 2**31))}
 
 
+LONG = [("t2", "T", "vv", "oo", 0), ("t2", "T", "vv", "oo", 0),
+        ("t2", "T", "v", "o", 0), ("p2", "A", "o", "o", 1),
+        ("p2", "A", "v", "v", 1)]
+LONG_NAMES = {("t2", 2): "t2_2", ("t2", 1): "t1_2", ("t2", 3): "t3_2",
+              ("p2", "o"): "p0_2_oo", ("p2", "v"): "p0_2_vv"}
+
+
+@st.composite
+def st_pert_case(draw, tier):
+    """a written-out multi-term intermediate in which ONE expanded term has a
+    deviating prefactor (factor_intermediates then has to factor the
+    intermediate with 'mixed prefactors' and add a compensating term)"""
+    if draw(st.integers(0, 2)) == 0:
+        # one index group of the doubles amplitude contracted with one group
+        # of an antisymmetrised integral, everything else free: the product
+        # keeps a permutational symmetry, expanded terms collapse pairwise
+        # ('spread' over two positions of the intermediate)
+        grp = draw(st.sampled_from(["u", "l"]))
+        vsp = draw(st.sampled_from(["oovv", "oooo", "vvvv"]))
+        c_ = "v" if grp == "u" else "o"
+        vg = [g for g, sp in (("u", vsp[:2]), ("l", vsp[2:])) if sp == c_ * 2]
+        if vg:
+            vgrp = draw(st.sampled_from(vg))
+            occ = list(draw(st.permutations(list(ALPHABET["occ"]))))
+            virt = list(draw(st.permutations(list(ALPHABET["virt"]))))
+            pool = {"o": occ, "v": virt}
+            shared = [pool[c_].pop(), pool[c_].pop()]
+            t2 = {"k": "T", "name": "t2", "bk": 0, "exp": 1,
+                  "u": [pool["v"].pop(), pool["v"].pop()],
+                  "l": [pool["o"].pop(), pool["o"].pop()]}
+            t2[grp] = list(shared)
+            V = {"k": "A", "name": "V", "bk": 1, "exp": 1,
+                 "u": [pool[vsp[0]].pop(), pool[vsp[1]].pop()],
+                 "l": [pool[vsp[2]].pop(), pool[vsp[3]].pop()]}
+            V[vgrp] = list(draw(st.permutations(shared)))
+            tg = [l for o in (t2, V) for l in o["u"] + o["l"]
+                  if l not in shared]
+            p = draw(st.sampled_from([1, -1, 2, 3]))
+            term = {"pref": [p, draw(st.sampled_from([1, 2, 4]))], "sqrt": 0,
+                    "syms": [], "objs": [t2, V]}
+            return {"terms": [term], "targets": sorted(tg),
+                    "req": "factor_perturbed",
+                    "pert": [draw(st.integers(0, 11)),
+                             draw(st.sampled_from([1, -1, 2, 3])),
+                             draw(st.sampled_from([1, 1, 2]))],
+                    "itmds": draw(st.sampled_from([["t2_2"], ["t2_2"],
+                                                   ["t_amplitude"], None])),
+                    "max_order": None,
+                    "size": draw(st.sampled_from([[2, 2], [3, 2], [2, 3]])),
+                    "mseed": draw(st.integers(0, 2**31))}
+    itm = draw(st.sampled_from(
+        LONG + ([("t2", "T", "vvv", "ooo", 0)] if tier == "thorough" else [])))
+    objs = [itm]
+    if draw(st.integers(0, 3)) != 0:
+        objs.append(draw(st.sampled_from(PLAIN[:8])))
+    n_target = draw(st.integers(0, 4))
+    t, tg = draw(st_term(n_target, tier, fixed_objs=objs))
+    name = LONG_NAMES[(itm[0], len(itm[2]) if itm[0] == "t2" else itm[2][0])]
+    sel = draw(st.sampled_from([[name], [name], ["t2_1", name],
+                                ["t_amplitude", "mp_density"], None]))
+    return {"terms": [t], "targets": sorted(tg), "req": "factor_perturbed",
+            "pert": [draw(st.integers(0, 11)),
+                     draw(st.sampled_from([1, -1, 2, 1, 3])),
+                     draw(st.sampled_from([1, 1, 2]))],
+            "itmds": sel, "max_order": None,
+            "size": draw(st.sampled_from([[2, 2], [3, 2], [2, 3], [3, 3]])),
+            "mseed": draw(st.integers(0, 2**31))}
+
+
 @st.composite
 def st_case(draw, tier):
     if draw(st.integers(0, 4)) == 0:
         return draw(st_num_case())
+    if draw(st.integers(0, 4)) == 0:
+        return draw(st_pert_case(tier))
     n_terms = draw(st.sampled_from([1, 1, 2, 3]))
     n_target = draw(st.integers(0, 2)) if n_terms == 1 else 0
     terms = []
@@ -272,7 +348,19 @@ def run_case(case):
                 f"{case['max_order']} targets={targets}")
     fkw = dict(types_or_names=case["itmds"], max_order=case["max_order"])
 
+    ref = [e]
+
     def pipeline():
+        if req == "factor_perturbed":
+            x = e.copy().expand_intermediates(fully_expand=True).expand()
+            k, p_, q_ = case["pert"]
+            tk = x.terms[k % len(x.terms)]
+            x2 = Expr(x.sympy + Rational(p_, q_) * tk.sympy, real=True,
+                      sym_tensors=["p2", "p3", "t2sq"],
+                      target_idx=list(targets))
+            ref[0] = x2
+            ref.append(x)
+            return factor_intermediates(x2.copy(), **fkw)
         if req == "expand_fully":
             return e.copy().expand_intermediates(fully_expand=True)
         if req == "expand_once":
@@ -307,7 +395,7 @@ def run_case(case):
     for attempt in range(4):
         try:
             m = install_model(case, attempt)
-            v0 = evaluate(m, e.sympy, targets)
+            v0 = evaluate(m, ref[0].sympy, targets)
             v1 = evaluate(m, out.sympy, targets)
             break
         except ModelResample:
@@ -315,8 +403,26 @@ def run_case(case):
     else:
         raise ModelResample("no regular model")
     if not (v0 == v1).all():
-        r.fail(f"value/{req}", f"{r.sample}\n -> {str(out)[:600]}")
-    changed = out.sympy != e.sympy
+        sub = f"value/{req}"
+        if req == "factor_perturbed":
+            # known finding F31: if expanded terms of the written-out
+            # intermediate are pairwise equal in value (the product has a
+            # permutational symmetry over free indices, or is identically
+            # zero), a term is matched onto positions of the intermediate it
+            # does not hold (the position is not re-mapped when the
+            # intermediate's own symmetry reorders free indices) and the
+            # compensating terms are wrong
+            vals = [evaluate(m, t.sympy, targets) for t in ref[1].terms]
+            spread = any(
+                vals[a].any() and ((vals[a] == vals[b]).all() or
+                                   ((vals[a] + vals[b]) % P == 0).all())
+                for a in range(len(vals)) for b in range(a + 1, len(vals)))
+            if spread:
+                sub += "_spread_F31"
+        r.fail(sub, f"{r.sample}" + (
+            f"\n input {str(ref[0])[:900]}" if ref[0] is not e else "") +
+            f"\n -> {str(out)[:600]}")
+    changed = out.sympy != ref[0].sympy
     if req.startswith("factor"):
         r.nontrivial = changed and has_itmd(out.sympy) and \
             bool((v0 != 0).any())
